@@ -210,7 +210,8 @@ def api_write(root, key, val, api, sp=1, species_override=None, charge_override=
         else:
             d[fld] = None if how == "none" else "abc"
     E = (lambda s: species_override if species_override is not None else _el(s))
-    Q = (lambda q: charge_override if charge_override is not None else q)
+    # the charge as a Python int, or (spelling 2) as the numpy integer a caller looping over np.arange would pass
+    Q = (lambda q: charge_override if charge_override is not None else (np.int64(q) if sp == 2 else q))
     if f in ADF11:
         name = {"ionisation": "ionisation_rate", "recombination": "recombination_rate", "line_power": "line_power_rate",
                 "continuum_power": "continuum_power_rate", "cx_power": "cx_power_rate"}[f]
